@@ -30,9 +30,9 @@ def run_common(ctx, vfile, rels, what):
     ctx.tie("k_translator", k_translator.tie_translator)
     ctx.proof(vfile)
     ctx.tie("k_semeq", k_semeq.tie_semeq, hermitian=True)
-    per = ctx.n(4, 60)
+    per = ctx.n(10, 60)
     ctx.oracle("o_relations[hermitian]", R.sweep, rels, per, kw_for(ctx, True), parallel=True)
-    ctx.oracle("o_relations[nonhermitian]", R.sweep, rels, ctx.n(3, 40), kw_for(ctx, False), parallel=True)
+    ctx.oracle("o_relations[nonhermitian]", R.sweep, rels, ctx.n(6, 40), kw_for(ctx, False), parallel=True)
 
     def search(c):
         out = []
